@@ -890,7 +890,36 @@ end ExRun
 /-! ## concurrency domain -/
 
 deriving instance FromJson, ToJson for Conc.Discipline
-deriving instance FromJson, ToJson for Conc.CallSpec
+
+/-- `kind`, `postTruthy`, `postYields` are optional (function / true / 0): cases written for the first version still read -/
+def concCallOfJson (j : Json) : Except String Conc.CallSpec := do
+  let f ← j.getObjValAs? Nat "f"
+  let pre ← j.getObjValAs? Bool "preTruthy"
+  let cy ← j.getObjValAs? Nat "condYields"
+  let by_ ← j.getObjValAs? Nat "bodyYields"
+  let kind ← match j.getObjValAs? String "kind" with
+    | .ok "function" => pure Conc.Kind.function
+    | .ok "method" => pure Conc.Kind.method
+    | .ok "ctor" => pure Conc.Kind.ctor
+    | .ok k => throw s!"unknown kind {k}"
+    | .error _ => pure Conc.Kind.function
+  let post := match j.getObjValAs? Bool "postTruthy" with | .ok b => b | .error _ => true
+  let py := match j.getObjValAs? Nat "postYields" with | .ok n => n | .error _ => 0
+  pure { f := f, preTruthy := pre, condYields := cy, bodyYields := by_, kind := kind, postTruthy := post, postYields := py }
+
+instance : FromJson Conc.CallSpec := ⟨concCallOfJson⟩
+
+/-- a schedule entry: a number (that task runs), `{"fork": p, "calls": [...]}` or `{"thread": true, "calls": [...]}` -/
+def concOpOfJson (j : Json) : Except String Conc.Op :=
+  match j.getNat? with
+  | .ok i => pure (.run i)
+  | .error _ => do
+    let calls ← j.getObjValAs? (List Conc.CallSpec) "calls"
+    match j.getObjValAs? Nat "fork" with
+    | .ok p => pure (.fork p calls)
+    | .error _ => pure (.thread calls)
+
+instance : FromJson Conc.Op := ⟨concOpOfJson⟩
 
 structure ConcTask where
   ctx : Nat
@@ -901,18 +930,21 @@ structure ConcCase where
   discipline : Conc.Discipline
   sets : List (List Nat)
   tasks : List ConcTask
-  sched : List Nat
+  sched : List Conc.Op
 deriving FromJson
 
 def runConc (c : ConcCase) : Json :=
-  let w0 : Conc.World := { sets := c.sets, tasks := c.tasks.map fun t => { ctx := t.ctx, calls := t.calls } }
-  let w := Conc.runSchedule c.discipline w0 c.sched
-  let vj (v : Conc.Verdict) : Json := match v with | .returned => jStr "returned" | .violation => jStr "violation"
+  let w0 : Conc.World := { sets := c.sets, tasks := c.tasks.map fun t => { ctx := t.ctx, calls := t.calls, program := t.calls } }
+  let w := Conc.runOps c.discipline w0 c.sched
+  let vj (v : Conc.Verdict) : Json := match v with
+    | .returned => jStr "returned" | .violation => jStr "violation" | .postViolation => jStr "postViolation"
   Json.mkObj [
     ("verdicts", jArr (w.tasks.map fun t => jArr (t.verdicts.map vj))),
     ("finished", jArr (w.tasks.map fun t => boolJson (t.calls.isEmpty))),
     ("sets", jArr (w.sets.map fun s => jArr (s.map jNat))),
-    ("expected", jArr (c.tasks.map fun t => jArr (t.calls.map fun cs => vj cs.expected)))]
+    ("safe", boolJson (Conc.safeOps c.discipline w0 c.sched)),
+    ("unchecked", jArr (w.tasks.map fun t => boolJson (match t.pc with | .inBody _ false _ => true | _ => false))),
+    ("expected", jArr (w.tasks.map fun t => jArr (t.program.map fun cs => vj cs.expected)))]
 
 /-! ## decorator-stack domain -/
 
